@@ -18,10 +18,12 @@ import (
 	"bytes"
 	"fmt"
 
+	"free5gclib/aper"
 	"free5gclib/nas"
 	"free5gclib/nas/nasMessage"
 	"free5gclib/nas/nasTestpacket"
 	"free5gclib/nas/nasType"
+	"free5gclib/ngap/ngapType"
 	"free5gclib/openapi/models"
 	"tglib"
 )
@@ -81,9 +83,17 @@ func nassecStep(ue *tglib.RanUeContext, op map[string]interface{}) (out map[stri
 		ue.DLCount.Set(uint16(num(op, "ovf")), uint8(num(op, "sqn")))
 	case "recv":
 		pkt := nassecExact(unhex(op, "pkt"))
-		m, err := tglib.NASDecode(ue, nas.GetSecurityHeaderType(pkt), pkt)
-		if err != nil {
-			out["err"] = err.Error()
+		// through the emulator's own entry point: the NAS-PDU arrives inside a DOWNLINK NAS TRANSPORT and tglib.GetNasPdu
+		// hands it to NASDecode (a nil message stands for NASDecode's error)
+		var dl ngapType.DownlinkNASTransport
+		ie := ngapType.DownlinkNASTransportIEs{}
+		ie.Id.Value = ngapType.ProtocolIEIDNASPDU
+		ie.Value.Present = ngapType.DownlinkNASTransportIEsPresentNASPDU
+		ie.Value.NASPDU = &ngapType.NASPDU{Value: aper.OctetString(pkt)}
+		dl.ProtocolIEs.List = append(dl.ProtocolIEs.List, ie)
+		m := tglib.GetNasPdu(ue, &dl)
+		if m == nil {
+			out["err"] = "tglib.GetNasPdu returned no message"
 			return
 		}
 		re, err := m.PlainNasEncode()
